@@ -153,6 +153,7 @@ type Run struct {
 	intrinsics   map[string]bool
 	samples      []sample
 	msgs         map[string]int
+	notes        map[string]int // dynamic bounds applied (not inconclusive): reported in the evidence
 	queries      int
 	solverTime   time.Duration
 	satN, unsatN int
@@ -238,6 +239,9 @@ func (r *Run) finish(w *Worker, it *workItem, res pathResult) {
 	}
 	for n := range ex.intrinsicsUsed {
 		r.intrinsics[n] = true
+	}
+	if res.kind == outPruned && strings.HasPrefix(res.msg, "bound:") {
+		r.notes[res.msg]++
 	}
 	if res.kind != outOK && res.kind != outPruned && res.kind != outViolation {
 		m := res.kind.String() + ": " + firstLine(res.msg)
@@ -355,7 +359,7 @@ func expandJobs(prog *Program, specs []JobSpec) ([]*Job, error) {
 
 func newRun(prog *Program, spec *CheckSpec, solverKind string, timeout time.Duration) *Run {
 	r := &Run{prog: prog, spec: spec, paths: map[outcomeKind]int{}, cover: map[string]int{}, funcs: map[string]bool{},
-		intrinsics: map[string]bool{}, msgs: map[string]int{}, outTraces: map[string][]string{}, maxViol: 3,
+		intrinsics: map[string]bool{}, msgs: map[string]int{}, notes: map[string]int{}, outTraces: map[string][]string{}, maxViol: 3,
 		solverKind: solverKind, timeout: timeout}
 	r.cond = sync.NewCond(&r.mu)
 	return r
